@@ -1534,10 +1534,15 @@ chkpnta(void)
 	ndtr_t sntr;
 	ndnd_t *snds;
 	size_t nsnds = 0UL;
-	size_t zsnds = countof(chkpnts);
+	size_t zsnds = 1U;
 	bool incompl = false;
 	int rc = 0;
 
+	/* the seen tree points into the array of seen nodes, so that array
+	 * must never move, there's at most as many users as tasks */
+	for (size_t i = 0U; i < ztask_ht; i++) {
+		zsnds += task_ht[i].oid != 0U;
+	}
 	if (UNLIKELY((snds = malloc(zsnds * sizeof(*snds))) == NULL)) {
 		/* no use starting the whole procedure */
 		return -1;
@@ -1576,19 +1581,9 @@ chkpnta(void)
 		bang:
 			/* boast about having seen this one */
 			if (UNLIKELY(nsnds >= zsnds)) {
-				/* resize this guy */
-				const size_t nuz = zsnds * 2U;
-				void *nup;
-
-				nup = realloc(snds, nuz * sizeof(*snds));
-				if (UNLIKELY(nup == NULL)) {
-					/* finish up */
-					rc = -1;
-					break;
-				}
-				/* reassign */
-				snds = nup;
-				zsnds = nuz;
+				/* cannot happen */
+				rc = -1;
+				break;
 			}
 			snds[nsnds] = (ndnd_t){.key = u, .fd = fd};
 			add_seen(&sntr, snds + nsnds++);
